@@ -10,4 +10,8 @@ def matches(finding, v):
     for k, val in (sig.get("facts") or {}).items():
         if facts.get(k) != val:
             return False
+    for k, allowed in (sig.get("subset") or {}).items():
+        got = facts.get(k)
+        if not isinstance(got, list) or not got or not set(got) <= set(allowed):
+            return False
     return True
